@@ -33,5 +33,7 @@ mkdir -p "$ROOT/.work/bin" "$ROOT/coq/Gen"
 (cd "$HERE/lockskel" && go build -o "$ROOT/.work/bin/lockskel" .)
 # deep mode: SafeMap.m / GenericStack.stack.entries (C07, C11)  ->  Gen/LockSkeleton_gen.v
 # field mode: FifoMapCache's fields (C08) -> Gen/CacheSkeleton_gen.v ; Queue.errorSubscribers (C14) -> Gen/WQSkeleton_gen.v
-# (separate files, so that C07/C11 do not depend on the skeletons of the cache and of the work queue)
+#             Subscriber / Publication of publisher/publication.go (C10) -> Gen/PubSkeleton_gen.v ;
+#             RankCalculator.entries (X05) -> Gen/RankSkeleton_gen.v
+# (separate files, so that a property depends only on the skeletons of its own package)
 exec "$ROOT/.work/bin/lockskel" -repo "$REPO" -out "$ROOT/coq/Gen/LockSkeleton_gen.v" -outdir "$ROOT/coq/Gen"
